@@ -35,6 +35,8 @@ from .values import (
 
 CONTRACTS = {}
 LEMMAS = {}
+GHOST_IMPL = {}  # name -> Python implementation (spec function) used by RunCtx.ghost
+NONNEG_GHOSTS = {"OCCN"}
 
 
 def _force(x):
@@ -215,6 +217,28 @@ class SymCtx:
         f = listing.meta["filter"]
         return IntV(f["cnt"](Z(k) - f["lo"]))
 
+    def ghost(self, name, *args):
+        """Value of an uninterpreted SPEC function at these arguments: one fresh integer per
+        (name, argument identities) and verification run - i.e. the spec function is a function."""
+        def ident(a):
+            if isinstance(a, SeqV):
+                return ("seq", a.meta.get("fun").get_id() if a.meta.get("fun") is not None else id(a))
+            if isinstance(a, ObjV):
+                return ("obj", tuple(ident(v) for v in a.fields.values()))
+            if isinstance(a, SetV):
+                return ("set", getattr(a, "fun", None).get_id() if getattr(a, "fun", None) is not None else id(a))
+            if isinstance(a, IntV):
+                return ("int", a.t.get_id())
+            return ("py", repr(a))
+
+        key = (name,) + tuple(ident(a) for a in args)
+        cache = self.engine.ghosts
+        if key not in cache:
+            cache[key] = IntV(fresh("ghost_" + name))
+            if name in NONNEG_GHOSTS:  # the spec function is a count
+                self.engine.global_axioms.append(cache[key].t >= 0)
+        return cache[key]
+
     def is_perm(self, p):
         """Bijection of range(n), stated with the ghost two-sided inverse carried by
         the value (meta['ginv']); a value without a witness cannot satisfy it."""
@@ -386,6 +410,9 @@ class RunCtx:
 
     def count_upto(self, listing, k):
         return sum(1 for i in listing.indices if i < k)
+
+    def ghost(self, name, *args):
+        return GHOST_IMPL[name](*args)
 
     def is_perm(self, p):
         return sorted(p) == list(range(len(p)))
